@@ -16,8 +16,8 @@ META = {
     "validate_arguments with count/max_count) refines a plain List queue with batched read/peek/write/clear; "
     "lock-step correspondence of that model with the real component in pysim",
     "level_text": "c15_refines (simulation of the list-queue spec by the full data-path model, outputs included) and its "
-    "corollaries c15_read/c15_peek/c15_write/c15_write_accept/c15_clear/c15_history are proved for every depth, "
-    "read_width, write_width >= 1 with max(read_width, write_width) dividing depth, both write_max_count settings and "
+    "corollaries c15_read/c15_peek/c15_write/c15_write_accept/c15_clear/c15_order are proved for every depth >= 1, "
+    "read_width, write_width (not both 0) with max(read_width, write_width) dividing depth, both write_max_count settings and "
     "every call history whose write arguments are well-formed (count <= write_width, count <= max_count); the model is "
     "tied to the code by cycle-exact comparison of done bits, returned count and all read_width data words (including "
     "the don't-care ones), ready bits and both pointer registers",
@@ -45,9 +45,17 @@ def _sim(depth: int, rw: int, ww: int, mx: int, dw: int):
 
         try:
             _sims[key] = CompSim(lambda: WideFifo(dw, depth, rw, ww, write_max_count=bool(mx)))
-        except (ValueError, ZeroDivisionError) as e:
+        except (ValueError, ZeroDivisionError, AssertionError) as e:
             _sims[key] = f"raise {type(e).__name__}"
     return _sims[key]
+
+
+def _lst(xs) -> str:
+    return ",".join(map(str, xs)) if xs else "-"
+
+
+def _ints(s: str) -> list[int]:
+    return [] if s in ("-", "") else [int(x) for x in s.split(",")]
 
 
 def _parse_cfg(cfg: str) -> dict:
@@ -60,7 +68,7 @@ def _parse_op(op: str) -> dict:
     w = None
     if t["w"] != "-":
         a, b, d = t["w"].split(":")
-        w = (int(a), int(b), [int(x) for x in d.split(",")])
+        w = (int(a), int(b), _ints(d))
     return {"r": r, "p": int(t["p"]), "w": w, "c": int(t["c"])}
 
 
@@ -104,7 +112,7 @@ def impl(case: Case) -> list[str]:
             if v is None:
                 return "-"
             cnt, data = _decode(v, rw, dw)
-            return f"{cnt}:{','.join(map(str, data))}"
+            return f"{cnt}:{_lst(data)}"
 
         b = lambda p: 0 if r[(p,)] is None else 1  # noqa: E731
         out.append(f"r={res('read')} p={res('peek')} w={b('write')} c={b('clear')} rdy={e[0]}{e[1]}{e[2]} ri={e[3]}.{e[4]} wi={e[5]}.{e[6]}")
@@ -118,7 +126,7 @@ def _parse_out(o: str) -> dict:
         if v == "-":
             return None
         c, d = v.split(":")
-        return int(c), [int(x) for x in d.split(",")]
+        return int(c), _ints(d)
 
     return {"r": res(f["r"]), "p": res(f["p"]), "w": f["w"] == "1", "c": f["c"] == "1", "rdy": f["rdy"], "ri": f["ri"], "wi": f["wi"]}
 
@@ -182,7 +190,7 @@ def _cfg_line(depth, rw, ww, mx, dw=DW_DEFAULT) -> str:
 
 
 def _op_line(r, p, w, c) -> str:
-    ws = "-" if w is None else f"{w[0]}:{w[1]}:{','.join(map(str, w[2]))}"
+    ws = "-" if w is None else f"{w[0]}:{w[1]}:{_lst(w[2])}"
     return f"cyc r={'-' if r is None else r} p={int(p)} w={ws} c={int(c)}"
 
 
@@ -218,12 +226,12 @@ def _rand_ops(rng, cfgt, n, pr, pp, pw, pc, small_counts=False, malformed=False)
     for _ in range(n):
         r = None
         if rng.random() < pr:
-            r = rng.randint(0, rmax) if rng.random() < 0.3 else rng.randint(0 if rng.random() < 0.1 else 1, rw)
+            r = rng.randint(0, rmax) if rng.random() < 0.3 else rng.randint(0 if rng.random() < 0.1 else min(1, rw), rw)
             if small_counts:
                 r = min(r, 1 + (rng.random() < 0.3))
         w = None
         if rng.random() < pw:
-            cnt = rng.randint(0 if rng.random() < 0.1 else 1, ww)
+            cnt = rng.randint(0 if rng.random() < 0.1 else min(1, ww), ww)
             if small_counts and rng.random() < 0.7:
                 cnt = min(cnt, 1)
             m = rng.randint(cnt, ww) if mx else 0
@@ -240,40 +248,48 @@ def _directed(cfgt):
     every column offset, clear together with everything"""
     depth, rw, ww, mx, dw = cfgt
     d = _Data(dw)
-    W = lambda c, m=None: (c, (ww if m is None else m) if mx else 0, d.take(ww))  # noqa: E731
+    one = min(1, ww)
+
+    def W(c, m=None):
+        c = min(c, ww)
+        return (c, (ww if m is None else max(c, min(m, ww))) if mx else 0, d.take(ww))
+
     ops = []
-    ops += [(None, True, W(ww), False)] * 0
-    for _ in range(depth // ww + 2):
-        ops.append((rw, True, W(ww), False) if _ == 1 else (None, True, W(ww), False))
-    ops += [(None, False, W(1, 1), False)] * (ww + 1)  # top up one by one until really full
-    ops += [(rw, True, W(ww), False), (1, True, W(1, 1), False), (1, True, W(ww, ww), False)]
-    for _ in range(depth // rw + 2):
+    for k in range(depth // max(ww, 1) + 2):
+        ops.append((rw, True, W(ww), False) if k == 1 else (None, True, W(ww), False))
+    ops += [(None, False, W(one, 1), False) for _ in range(ww + 1)]  # top up one by one until really full
+    ops += [(rw, True, W(ww), False), (1, True, W(one, 1), False), (1, True, W(ww, ww), False)]
+    for _ in range(depth // max(rw, 1) + 2):
         ops.append((rw, True, None, False))
-    ops += [(rw, True, W(ww), False), (rw, True, W(1, 1), False)]
+    ops += [(rw, True, W(ww), False), (rw, True, W(one, 1), False)]
     # walk the pointers through every column offset: write k, read k
     for k in list(range(1, ww + 1)) + [1] * (max(rw, ww) + 1):
         ops.append((None, False, W(k, k), False))
         ops.append((min(k, rw), True, None, False))
         ops.append((rw, True, None, False))
-    ops += [(None, False, W(ww), False), (rw, True, W(ww), True), (rw, True, W(1, 1), False), (1, True, None, False)]
-    ops += [(None, False, W(1, 1), False), (None, False, None, True), (1, True, W(ww), False), (rw, True, None, False)]
+    ops += [(None, False, W(ww), False), (rw, True, W(ww), True), (rw, True, W(one, 1), False), (min(1, rw), True, None, False)]
+    ops += [(None, False, W(one, 1), False), (None, False, None, True), (min(1, rw), True, W(ww), False), (rw, True, None, False)]
     return ops
 
 
+QUICK_CONFIGS = [
+    (1, 1, 1), (2, 1, 1), (3, 1, 1), (2, 2, 2), (4, 2, 2), (2, 1, 2), (6, 2, 1),
+    (3, 3, 3), (6, 3, 2), (6, 2, 3), (9, 3, 1), (4, 4, 4), (8, 4, 2), (12, 4, 3),
+    (8, 1, 4), (5, 5, 2), (10, 2, 5), (15, 5, 3), (7, 7, 3), (8, 8, 8), (16, 8, 3), (24, 3, 8),
+    (4, 0, 2), (2, 2, 0),
+]  # (depth, rw, ww): 1..5 rows, powers of two and not, rw <, =, > ww; the degenerate widths 0 are accepted by the code
+
+
 def _configs(ctx: Check):
-    quick = [
-        (1, 1, 1), (2, 1, 1), (3, 1, 1), (2, 2, 2), (4, 2, 2), (6, 2, 2), (2, 1, 2), (4, 1, 2), (6, 2, 1),
-        (3, 3, 3), (6, 3, 2), (6, 2, 3), (9, 3, 1), (9, 1, 3), (4, 4, 4), (8, 4, 2), (12, 4, 3), (12, 3, 4),
-        (8, 1, 4), (5, 5, 2), (10, 2, 5), (15, 5, 3), (16, 4, 4), (7, 7, 3), (8, 8, 8), (16, 8, 3), (24, 3, 8),
-    ]  # (depth, rw, ww): rows 1..5, powers of two and not, rw <, =, > ww
     if ctx.quick:
-        return quick
-    out = set(quick)
+        return list(QUICK_CONFIGS)
+    out = set(QUICK_CONFIGS)
     for rw in range(1, 9):
         for ww in range(1, 9):
             c = max(rw, ww)
-            for rows in (1, 2, 3, 4, 5, 8):
+            for rows in (1, 2, 3, 5):
                 out.add((c * rows, rw, ww))
+    out |= {(64, 8, 8), (60, 6, 5), (33, 11, 4), (32, 1, 16), (26, 13, 13)}
     return sorted(out)
 
 
@@ -281,46 +297,51 @@ REGIMES = [(0.3, 0.3, 0.9, 0.01), (0.9, 0.5, 0.3, 0.01), (0.6, 0.5, 0.6, 0.03), 
 
 
 def gen_cases(ctx: Check):
+    """per configuration: the directed history, random histories in different attempt-probability regimes, and (for
+    a third of them) a malformed history.  `write_max_count` alternates with the configuration index and the seed,
+    so seeds 0 and 1 together cover both settings of every configuration; the data width is 6 bits (distinct words
+    up to depth 64) except for a few 1-bit and 33-bit instances."""
     rng = ctx.rng("gen")
     cases, malformed = [], []
-    n = ctx.pick(120, 700)
     for k, (depth, rw, ww) in enumerate(_configs(ctx)):
-        for mx in (0, 1):
-            dw = DW_DEFAULT if (k + mx) % 5 else (1 if k % 2 else 33)
+        n = ctx.pick(90 if max(rw, ww) <= 4 else 60, 300)  # wide instances simulate 3-5x slower
+        mxs = (0, 1) if (depth <= 4 or ctx.thorough and k % 4 == 0) else ((k + ctx.seed) % 2,)
+        for mx in mxs:
+            dw = 6 if (k + mx) % 7 else (1 if k % 2 else 33)
             cfgt = (depth, rw, ww, mx, dw)
             cases.append(_mk(cfgt, _directed(cfgt), "directed"))
-            regs = REGIMES if ctx.thorough else [REGIMES[(k + mx + j) % len(REGIMES)] for j in range(2)]
+            regs = [REGIMES[(k + mx + j) % len(REGIMES)] for j in range(ctx.pick(2, 3))]
             for j, (pr, pp, pw, pc) in enumerate(regs):
                 cases.append(_mk(cfgt, _rand_ops(rng, cfgt, n, pr, pp, pw, pc, small_counts=(j % 2 == 1 and rng.random() < 0.5)), "random"))
-            if ctx.thorough or (k + mx) % 3 == 0:
+            if (k + mx) % 3 == 0:
                 malformed.append(_mk(cfgt, _rand_ops(rng, cfgt, n, 0.5, 0.3, 0.7, 0.03, malformed=True), "malformed", wellformed=False))
     return cases, malformed
 
 
 def gen_exhaustive(ctx: Check):
-    """thorough: every input sequence of length <= L over a small op alphabet on the smallest configurations"""
+    """thorough: every input sequence of length L over an op alphabet (read count x write count x clear, peek always
+    attempted) on the smallest configurations"""
     cases = []
-    for depth, rw, ww, L in [(1, 1, 1, 5), (2, 1, 1, 5), (2, 2, 2, 4), (2, 1, 2, 4), (2, 2, 1, 4), (4, 2, 2, 3), (3, 3, 2, 3)]:
-        for mx in (0, 1):
-            cfgt = (depth, rw, ww, mx, 4)
-            alpha = []
-            for r in [None] + list(range(0, rw + 1)):
-                for wc in [None] + list(range(0, ww + 1)):
-                    for c in (False, True):
-                        alpha.append((r, wc, c))
-            if len(alpha) ** L > 60000:
-                alpha = [a for a in alpha if a[0] != 0 and a[1] != 0]
-            for seq in itertools.product(alpha, repeat=L):
-                d = _Data(4)
-                ops = [(r, True, None if wc is None else (wc, ww if mx else 0, d.take(ww)), c) for r, wc, c in seq]
-                cases.append(_mk(cfgt, ops, "exhaustive"))
+    for k, (depth, rw, ww, L) in enumerate([(1, 1, 1, 3), (2, 1, 1, 3), (2, 2, 2, 3), (2, 1, 2, 3), (2, 2, 1, 3), (4, 2, 2, 3), (3, 3, 2, 3)]):
+        mx = (k + ctx.seed) % 2
+        cfgt = (depth, rw, ww, mx, 4)
+        alpha = [(r, wc, c) for r in [None] + list(range(0, rw + 1)) for wc in [None] + list(range(0, ww + 1)) for c in (False, True)]
+        if len(alpha) ** L > 6000:
+            alpha = [a for a in alpha if a[0] != 0 and a[1] != 0]
+        if len(alpha) ** L > 6000:
+            alpha = [a for a in alpha if not (a[2] and (a[0] is None or a[1] is None))]
+        for seq in itertools.product(alpha, repeat=L):
+            d = _Data(4)
+            ops = [(r, True, None if wc is None else (wc, ww if mx else 0, d.take(ww)), c) for r, wc, c in seq]
+            cases.append(_mk(cfgt, ops, "exhaustive"))
     return cases
 
 
 def rejected_configs():
-    """constructor arguments the component refuses (depth not a multiple of max(rw, ww)); the model must refuse them too"""
+    """arguments the component refuses (depth not a multiple of max(rw, ww): ValueError; both widths 0:
+    ZeroDivisionError; depth 0: AssertionError of mod_incr at elaboration); the model must refuse them too"""
     return [Case(_cfg_line(d, r, w, 0), [], {"component": "WideFifo", "depth": d, "rw": r, "ww": w, "max": 0}, "directed")
-            for d, r, w in [(5, 2, 2), (7, 3, 2), (4, 3, 1), (2, 4, 1), (3, 0, 0)]]
+            for d, r, w in [(5, 2, 2), (7, 3, 2), (4, 3, 1), (2, 4, 1), (3, 0, 0), (0, 1, 1), (0, 2, 3)]]
 
 
 def more_cases(case: Case, rng):
@@ -343,26 +364,44 @@ def nontrivial(case: Case, out: list[str]) -> bool:
     return full and nonempty_then_empty and both and wrapped
 
 
+def load_corpus() -> list[Case]:
+    import json
+
+    from ..common import CORPUS
+
+    out = []
+    for p in sorted((CORPUS / "C15").glob("*.json")):
+        b = json.loads(p.read_text())
+        out.append(Case(b["cfg"], list(b["ops"]), b.get("desc", {}), "corpus"))
+    return out
+
+
 def run(ctx: Check):
     ctx.rule = (
         "cases = (depth, read_width, write_width, write_max_count, data width; history of attempted "
-        "read(count)/peek/write(count[,max_count],data)/clear with pairwise distinct data words); non-trivial = "
-        "history in which the queue becomes full and empty again, a read and a write execute in the same cycle and "
-        "the read pointer wraps around"
+        "read(count)/peek/write(count[,max_count],data)/clear with consecutive (hence locally distinct) data words); "
+        "non-trivial = history in which the queue becomes full and empty again, a read and a write execute in the "
+        "same cycle and the read pointer wraps around"
     )
     ctx.proof_stage()
     procs = 1 if ctx.quick else None
     cases, malformed = gen_cases(ctx)
+    cases = load_corpus() + cases
     lockstep(ctx, "widefifo", "C15", cases, impl, monitor, more_cases, nontrivial, procs=procs)
-    # outside the environment hypotheses (count > write_width, count > max_count): model vs. code only
+    ctx.count("configurations", len({c.cfg for c in cases}))
+    ctx.count("cycles_wellformed", sum(len(c.ops) for c in cases))
+    if ctx.violations:
+        return  # the model-only comparisons below would only repeat the alarm without a failing input
+    # outside the environment hypotheses (count > write_width, count > max_count): model vs. code, no property claim
     lockstep(ctx, "widefifo-malformed", "C15", malformed, impl, None, None, lambda c, o: False, procs=procs)
+    ctx.count("cycles_malformed", sum(len(c.ops) for c in malformed))
     lockstep(ctx, "widefifo-rejected-config", "C15", rejected_configs(), impl, None, None, lambda c, o: False, procs=1)
     if ctx.thorough:
         ex = gen_exhaustive(ctx)
         lockstep(ctx, "widefifo-exhaustive", "C15", ex, impl, monitor, more_cases, nontrivial, procs=procs)
-        ctx.note(f"{len(ex)} exhaustive short histories on the smallest configurations")
-    ctx.count("configurations", len({c.cfg for c in cases}))
-    ctx.note("malformed stream (write count beyond write_width / max_count) is compared model-vs-code without a property claim")
+        ctx.note(f"{len(ex)} exhaustive histories of length 3 on the smallest configurations (alphabet: read count x write count x clear)")
+    ctx.note("malformed stream (write count beyond write_width / max_count) is compared model-vs-code without a property claim; "
+             "the documented hazard count > max_count overflows the queue in code and model alike")
 
 
 def replay(ctx: Check, body: dict):
